@@ -112,8 +112,15 @@ def r2(ctx):
         ok = ("%s in self.registered_events" % k, False) in conds or ("%s not in self.registered_events" % k, True) in conds
         ctx.check(ok, "C20.R2", rf, "a handler is stored only when the name is not registered yet", "registering a second handler for the same class is refused", witness=conds, line=s.lineno)
         ctx.check(norm(s.ast.value) == rf.params[2], "C20.R2", rf, "the stored handler is the function passed in")
-        dup = [n for n in walk_own(rf.node) if isinstance(n, ast.If) and norm(n.test) == "%s in self.registered_events" % k and any(isinstance(x, ast.Raise) for x in n.body)]
-        ctx.check(len(dup) == 1, "C20.R2", rf, "a duplicate registration raises")
+        # with the name already registered the function cannot return: every path that answers the membership test with
+        # "present" ends in an explicit raise (whichever way round the test is written)
+        from .common import leaf_cut, reach_without
+        cut = leaf_cut(cfg, lambda t: "F" if t == "%s in self.registered_events" % k else "T" if t == "%s not in self.registered_events" % k else None)
+        seen = reach_without(cfg, cfg.entry, cut)
+        explicit = [n for n in cfg.stmts((ast.Raise,)) if n.id in seen]
+        normal = cfg.reachable(cfg.entry, edge_ok=lambda a, b_, label: not (a.id in cut and label == cut[a.id]) and label not in ("exc", "raise"))
+        ctx.check(bool(cut) and bool(explicit) and cfg.exit not in normal, "C20.R2", rf, "a duplicate registration raises",
+                  "no path on which the name is found registered reaches the end of the function", witness=[norm(n.ast) for n in explicit], line=s.lineno)
 
 
 def r3(ctx):
